@@ -41,7 +41,10 @@ type FnExec struct {
 	topHeld  []heldLock
 	acqState *State
 	retPos   []token.Pos
-	callCount map[string]int
+	callCount map[string]int // ordinal of the most recent call site per callee name
+	callDyn   map[string]int
+	callOrd   map[string]map[token.Pos]int
+	callResT  map[string]types.Type // result types of recorded call sites ($call("name#n"))
 }
 
 func (fx *FnExec) analyzeCFG() {
